@@ -50,6 +50,22 @@ def has_boolop_in_expr(src):
     return False
 
 
+def boolop_loop_with_jump(src):
+    for n in ast.walk(ast.parse(src)):
+        if isinstance(n, ast.While) and isinstance(n.test, ast.BoolOp):
+            todo = list(n.body)
+            while todo:
+                m = todo.pop()
+                if isinstance(m, (ast.Continue, ast.Break)):
+                    return True
+                if isinstance(m, (ast.While, ast.For)):
+                    todo.extend(m.orelse)
+                    continue
+                for f in ("body", "orelse"):
+                    todo.extend(getattr(m, f, []) or [])
+    return False
+
+
 def finding_class(src):
     if has_boolop_in_expr(src):
         return "K4-boolop-hoisted-before-earlier-operands"
@@ -85,6 +101,16 @@ def items_for(tier, seed):
     items = []
     for _ in range(220 if tier == "quick" else 4000):
         items.append(("clean", progs.ProgGen(rng, progs.CLEAN).func(3)))
+    # clean programs with a rarely generated combination: a loop whose test is an and/or and whose
+    # body jumps (continue / break) - the jump must land where the WHOLE test is evaluated again
+    k = tries = 0
+    want = 60 if tier == "quick" else 600
+    while k < want and tries < 200 * want:
+        tries += 1
+        s = progs.ProgGen(rng, progs.CLEAN).func(3)
+        if boolop_loop_with_jump(s) and finding_class(s) is None:
+            items.append(("clean", s))
+            k += 1
     n = 50 if tier == "quick" else 600
     k = 0
     while k < n:
